@@ -116,6 +116,15 @@ def load_known():
 
 
 def finish(ctx, explanation, not_decided):
+    try:
+        from . import handlers as _h
+        if _h._HT is not None and _h._HT.source:
+            src = _h._HT.source
+            n_i = sum(1 for v in src.values() if v == "interpreted")
+            ctx.analysed["walker_dispatch_tables"] = "%d classes: %d from the interpreted metaclass, %d from the static model%s" % (
+                len(src), n_i, len(src) - n_i, ("; " + "; ".join(sorted(set(v for v in src.values() if v != "interpreted")))[:300]) if n_i < len(src) else "")
+    except Exception:        # noqa - bookkeeping only
+        pass
     known = load_known()
     known_keys = {}
     for k in known.get("findings", []):
